@@ -35,7 +35,7 @@ def handleLine (tbl : Array (Nat × Nat)) (line : String) : String :=
       | "hash" => LiftD.handleHash payload impl
       | "lift" => LiftD.handleLift tbl payload impl
       | "idiom" => IdiomD.handleIdiom tbl payload impl
-      | "frag" => IdiomD.handleFrag payload impl
+      | "frag" => IdiomD.handleFrag tbl payload impl
       | "evm" => EvmD.handle payload impl
       | "tc" => TCD.handle tbl payload impl
       | "pipeline" => PipelineD.handle tbl payload impl
@@ -49,7 +49,7 @@ partial def loop (tbl : Array (Nat × Nat)) (h : IO.FS.Stream) (out : IO.FS.Stre
   if line.isEmpty then return ()
   let line := (line.dropEndWhile (fun c => c == '\n' || c == '\r')).toString
   -- the 10,000-entry hash table is only built when a request needs it
-  let tbl := if tbl.isEmpty && (line.startsWith "lift\t" || line.startsWith "tc\t" || line.startsWith "pipeline\t" || line.startsWith "idiom\t") then LiftD.slotTable else tbl
+  let tbl := if tbl.isEmpty && (line.startsWith "lift\t" || line.startsWith "tc\t" || line.startsWith "pipeline\t" || line.startsWith "idiom\t" || line.startsWith "frag\t") then LiftD.slotTable else tbl
   if !line.isEmpty then out.putStrLn (handleLine tbl line)
   loop tbl h out
 
